@@ -26,6 +26,8 @@ def shards(tier, seed, scale=1.0):
         out.append({'name': 'diff-%d' % s, 'kind': 'diff', 'seed': seed * 1000 + s, 'n': max(10, int(n * scale))})
     for s in range(8):
         out.append({'name': 'excl-%d' % s, 'kind': 'excl', 'seed': seed * 1000 + 300 + s, 'n': max(10, int(n * scale / 2))})
+    for ti in range(len(T.CATALOGUE)):
+        out.append({'name': 'literal-%d' % ti, 'kind': 'literal', 'tree': ti})
     for s in range(4):
         out.append({'name': 'mutate-%d' % s, 'kind': 'mutate', 'seed': seed * 1000 + 500 + s, 'n': max(5, int(n * scale / 12))})
     return out
@@ -36,6 +38,8 @@ def run_shard(desc):
         return run_excl(desc)
     if desc['kind'] == 'mutate':
         return run_mutate(desc)
+    if desc['kind'] == 'literal':
+        return run_literal(desc)
     return run_diff(desc)
 
 
@@ -268,6 +272,31 @@ def run_excl(desc):
                             'patterns': [A.render_path(p_) for p_ in pps], 'exclude': [A.render_path(e) for e in excl], 'cfg': cfg, 'how': how,
                             'glob': sorted(S)[:8]})
     test()
+    return out
+
+
+def run_literal(desc):
+    """Systematic sweep over a catalogue tree: every entry path as a literal pattern, with per-segment case swap, `*`, `**`
+    and prefix-star variants, with and without IGNORECASE: glob() and globmatch(REALPATH) must agree."""
+    out = Outcome()
+    out.exhaustive = True
+    armed = desc['armed']
+    spec = T.CATALOGUE[desc['tree']]
+    with FC.built_tree(spec) as (root, _r):
+        model = T.Model(root)
+        entries = [p for p, _d, _l in model.all_entries(follow=False, max_depth=6)]
+        n = 0
+        for segs in FC.literal_variants(entries):
+            for cfg in ({}, {'icase': True}, {'icase': True, 'globstar': True}, {'globstar': True, 'dot': True}):
+                if any(isinstance(x, str) for x in segs) and not cfg.get('globstar'):
+                    continue
+                for trail in (False, True) if len(segs) <= 2 else (False,):
+                    pp = A.PathPat(False, segs, trail, 1)
+                    n += 1
+                    r = compare(root, [pp], None, dict(cfg), ['root_dir', 'cwd', 'dir_fd'][n % 3], out, armed, spec)
+                    if r is not None and r[0] and len(segs) >= 2:
+                        out.nontrivial((desc['tree'], A.render_path(pp), tuple(sorted(cfg))))
+    out.sample({'stream': 'literal', 'tree_index': desc['tree'], 'entries': len(entries), 'cases': n})
     return out
 
 
